@@ -230,3 +230,75 @@ mod tests {
         assert_eq!(z.start_of_day(midnight), Some(midnight + 18_000 * NS));
     }
 }
+
+// ---------------------------------------------------------------------------------------------
+// Zoned arithmetic (AddZonedDateTime, DifferenceZonedDateTime, start of day, hours in day)
+
+use crate::r1::{civil_from_days, MAX_INSTANT_NS};
+use crate::r2::{add_iso_date, diff_iso_date, DUnit, DateDur, Dt, Overflow, Ymd};
+
+fn split(l: i128) -> (i64, i128) {
+    (l.div_euclid(NS_PER_DAY) as i64, l.rem_euclid(NS_PER_DAY))
+}
+
+impl Zone {
+    /// AddZonedDateTime: date units on the wall clock (re-resolved `compatible`), time units on the exact timeline.
+    pub fn add_zoned(&self, t: i128, date: DateDur, time_ns: i128, overflow: Overflow) -> Result<i128, ()> {
+        let base = if date == DateDur::default() {
+            t
+        } else {
+            let (day, tod) = split(self.local_of(t));
+            let (y, m, d) = civil_from_days(day);
+            let added = add_iso_date(Ymd::new(y, m, d), date, overflow).map_err(|_| ())?;
+            if !Dt::new(added, tod).in_limits() {
+                return Err(());
+            }
+            self.resolve(added.epoch_day() as i128 * NS_PER_DAY + tod, Disamb::Compatible)?
+        };
+        let r = base + time_ns;
+        if r.abs() > MAX_INSTANT_NS {
+            return Err(());
+        }
+        Ok(r)
+    }
+
+    /// DifferenceZonedDateTime(ns1, ns2, zone, largestUnit) for a date largest unit: (date part, time part in ns).
+    pub fn diff_zoned(&self, t1: i128, t2: i128, largest: DUnit) -> Result<(DateDur, i128), ()> {
+        if t1 == t2 {
+            return Ok((DateDur::default(), 0));
+        }
+        let (sd, st) = split(self.local_of(t1));
+        let (ed, et) = split(self.local_of(t2));
+        let sign: i128 = if t2 - t1 < 0 { -1 } else { 1 };
+        let max_corr = if sign == 1 { 2 } else { 1 };
+        let mut corr: i128 = if (et - st).signum() == -sign { 1 } else { 0 };
+        let mut found: Option<(i64, i128)> = None;
+        while corr <= max_corr {
+            let iday = ed - (corr * sign) as i64;
+            let ins = self.resolve(iday as i128 * NS_PER_DAY + st, Disamb::Compatible)?;
+            let time = t2 - ins;
+            if time.signum() != -sign {
+                found = Some((iday, time));
+                break;
+            }
+            corr += 1;
+        }
+        let (iday, time) = found.ok_or(())?;
+        let dd = diff_iso_date(Ymd::from_epoch_day(sd), Ymd::from_epoch_day(iday), largest);
+        Ok((dd, time))
+    }
+
+    /// First instant of the local calendar day that contains `t`.
+    pub fn start_of_day_of(&self, t: i128) -> Option<i128> {
+        let (day, _) = split(self.local_of(t));
+        self.start_of_day(day as i128 * NS_PER_DAY)
+    }
+
+    /// Real elapsed length of the local day containing `t`, in ns.
+    pub fn day_length(&self, t: i128) -> Option<i128> {
+        let (day, _) = split(self.local_of(t));
+        let a = self.start_of_day(day as i128 * NS_PER_DAY)?;
+        let b = self.start_of_day((day + 1) as i128 * NS_PER_DAY)?;
+        Some(b - a)
+    }
+}
